@@ -28,6 +28,9 @@ func (r *Reader) ReadMetadata() (err error) {
 		if logLevelInfo() {
 			logInfo().Object("box", b).Send()
 		}
+		// Skip the payload of a box that is not interpreted, the next call
+		// starts at the next top-level box.
+		err = b.close()
 	}
 	if err != nil && logLevelError() {
 		logError().Object("box", b).Err(err).Send()
